@@ -53,7 +53,7 @@ def observe_all(m, toks):
     for v in A.VIEWS0:
         warm[v] = A.observe_view(warm_m, v)
         cold[v] = A.observe_view(A.clone_market(m, False), v)
-    for v in A.VIEWS1:
+    for v in A.VIEWS1 + A.HELPERS1:
         warm[v] = {t: A.observe_view(warm_m, v, t) for t in toks}
         cold[v] = {t: A.observe_view(A.clone_market(m, False), v, t) for t in toks}
     return warm, cold
@@ -122,37 +122,57 @@ def run_sequence(ctx: Ctx, rng, nsteps, reqs, meta, exact_env=False, pandas_stat
         m, b, actions = A.new_market(env, A.initial_wallet(rng, env))
     last_kind = None
     was_stale = False
-    for i in range(nsteps):
-        env_next = None
+    pending = []            # (op, env_next) drawn but not yet executed: cache-warming reads queued in front of a write
+
+    def draw():
+        """the next random operation on the current state (and the next bar's data when it is a bar change)"""
         r = rng.random()
-        if script is not None:
-            op = script[i]
-            if op["kind"] == "newBar":
-                env_next = A.next_env(rng, env, shocks.get(i))
-        elif r < 0.07 or (last_kind == "newBar" and r < 0.5):
-            op = {"kind": "update"}
-        elif r < 0.16:
+        if r < 0.07 or (last_kind == "newBar" and r < 0.5):
+            return {"kind": "update"}, None
+        if r < 0.16:
             shock = None
             if m._supplies and rng.random() < 0.6:
                 shock = {t.name: A.dec_digits(rng, 0.3, 0.95, 4) for t in m._supplies if rng.random() < 0.8}
-            env_next = A.next_env(rng, env, shock)
+            nxt = A.next_env(rng, env, shock)
             if rng.random() < 0.06:
-                env_next["isOpen"] = False
+                nxt["isOpen"] = False
             if rng.random() < 0.12 and (m._supplies or m._borrows):
                 # malformed bar: the price vector lacks a token that is held — every valuation must raise KeyError,
                 # on a cold cache and on whatever an interrupted fill left behind alike
                 held = [k.name for k in list(m._supplies) + list(m._borrows)]
                 later = [k.name for k in list(m._supplies)[1:] + list(m._borrows)[1:]]   # not the first key: a fill gets interrupted midway
                 drop = rng.choice(later if later and rng.random() < 0.7 else held)
-                env_next["price"] = {t: p for t, p in env_next["price"].items() if t != drop}
-            op = {"kind": "newBar"}
-        elif r < 0.42:
-            v = rng.choice(A.VIEWS0 + A.VIEWS0 + A.VIEWS1)
-            op = {"kind": "read", "view": v}
-            if v in A.VIEWS1:
-                op["tok"] = rng.choice(env["tokens"] + [A.UNKNOWN])
+                nxt["price"] = {t: p for t, p in nxt["price"].items() if t != drop}
+            return {"kind": "newBar"}, nxt
+        if r < 0.42:
+            return read_op(), None
+        return A.gen_op(rng, m, b, env), None
+
+    def read_op():
+        if rng.random() < 0.15:
+            # a read-only helper outside the model's vocabulary (implementation + oracle only)
+            return {"kind": "helper", "view": rng.choice(A.HELPERS1), "tok": rng.choice(env["tokens"] + [A.UNKNOWN])}
+        v = rng.choice(A.VIEWS0 + A.VIEWS0 + A.VIEWS1)
+        op = {"kind": "read", "view": v}
+        if v in A.VIEWS1:
+            op["tok"] = rng.choice(env["tokens"] + [A.UNKNOWN])
+        return op
+
+    for i in range(nsteps):
+        env_next = None
+        if script is not None:
+            op = script[i]
+            if op["kind"] == "newBar":
+                env_next = A.next_env(rng, env, shocks.get(i))
         else:
-            op = A.gen_op(rng, m, b, env)
+            if not pending:
+                op, nxt = draw()
+                pending.append((op, nxt))
+                if op["kind"] not in ("read", "helper", "newBar") and rng.random() < 0.5:
+                    # a strategy looking at a random subset of its figures right before it acts: the write (and, for update(),
+                    # the liquidation) meets whatever mixture of warm and cold caches these reads leave behind
+                    pending[:0] = [(read_op(), None) for _ in range(rng.choice([1, 1, 2, 3]))]
+            op, env_next = pending.pop(0)
         s0 = A.dump_state(m, b, actions, len(actions))
         n0 = len(actions)
         env_used = env_next if op["kind"] == "newBar" else env
@@ -161,8 +181,14 @@ def run_sequence(ctx: Ctx, rng, nsteps, reqs, meta, exact_env=False, pandas_stat
             env = env_next
         s1 = A.dump_state(m, b, actions, n0)
         case = {"env": A.env_json(env_used), "state": s0, "op": op}
-        reqs.append(A.step_request(env_used, s0, op))
-        meta.append(("step", case, outcome, result, s1, filled(s0)))
+        if op["kind"] == "helper":
+            ctx.case(f"helper:{op['view']}:{outcome}:{filled(s0)}", {"op": op, "outcome": outcome})
+            core = lambda st: {k: st[k] for k in ("supplies", "borrows", "wallet", "hasUpdate")}    # noqa: E731
+            if core(s0) != core(s1) or s1["actions"]:
+                ctx.violate(f"helper-writes:{op['view']}", f"the read-only helper {op} changed positions / wallet / log / has_update", case)
+        else:
+            reqs.append(A.step_request(env_used, s0, op))
+            meta.append(("step", case, outcome, result, s1, filled(s0)))
         # ---- oracle: cached views == cold-cache views == Lean spec on the raw state
         toks = list(env["tokens"])
         warm, cold = observe_all(m, toks)
@@ -172,7 +198,7 @@ def run_sequence(ctx: Ctx, rng, nsteps, reqs, meta, exact_env=False, pandas_stat
                 what = (v, warm[v], cold[v])
                 break
         if what is None:
-            for v in A.VIEWS1:
+            for v in A.VIEWS1 + A.HELPERS1:
                 for t in toks:
                     if not A.same(warm[v][t], cold[v][t]):
                         what = (f"{v}({t})", warm[v][t], cold[v][t])
@@ -241,7 +267,7 @@ def run(ctx: Ctx):
     nseq = ctx.scale(150, 1500)
     reqs, meta = [], []
     for i in range(nseq):
-        run_sequence(ctx, rng, rng.randint(10, 26 if not ctx.thorough else 60), reqs, meta, exact_env=(i % 4 == 3), pandas_status=(i % 8 == 5))
+        run_sequence(ctx, rng, rng.randint(12, 34 if not ctx.thorough else 70), reqs, meta, exact_env=(i % 4 == 3), pandas_status=(i % 8 == 5))
     for i in range(ctx.scale(12, 120)):
         run_sequence(ctx, rng, 0, reqs, meta, tie=True)
     for i in range(ctx.scale(40, 400)):
@@ -267,7 +293,7 @@ def replay(ctx: Ctx, case) -> bool:
         if not A.same(warm[v], cold[v]):
             print(f"   view {v}: cached {warm[v]} vs from scratch {cold[v]}")
             ok = False
-    for v in A.VIEWS1:
+    for v in A.VIEWS1 + A.HELPERS1:
         for t in env["tokens"]:
             if not A.same(warm[v][t], cold[v][t]):
                 print(f"   view {v}({t}): cached {warm[v][t]} vs from scratch {cold[v][t]}")
